@@ -1,6 +1,7 @@
 package main
 
 import (
+	"bytes"
 	"encoding/json"
 	"flag"
 	"fmt"
@@ -174,6 +175,13 @@ func (s *Stats) observe(st *Step, r *Result) {
 		s.PlainSteps++
 	}
 	s.ExitCodes[r.Exit]++
+	if st.NoFile > 0 {
+		// a run under the descriptor limit (collector off); "reached" counts the runs in which the limit was actually hit
+		s.Faults["resource:open-files-limit"]++
+		if bytes.Contains(r.Stderr, []byte("too many open files")) {
+			s.Faults["resource:open-files-limit:reached"]++
+		}
+	}
 	vec := ""
 	for _, e := range r.Trace {
 		switch e.Kind {
